@@ -308,6 +308,9 @@ where
 struct Ctx {
     subs: BTreeMap<i64, SubState>,
     flags: BTreeMap<i64, Arc<Flag>>,
+    /// waker policy "reuse": the one waker each subscriber is always polled with
+    own: BTreeMap<i64, Arc<Flag>>,
+    reuse_wakers: bool,
     src: Source,
 }
 
@@ -346,7 +349,8 @@ impl Ctx {
                     }
                 }
                 let wk = self.flags.get(&s).map(|f| f.is_set());
-                let flag = Flag::new();
+                let flag = if self.reuse_wakers { self.own.entry(s).or_insert_with(Flag::new).clone() } else { Flag::new() };
+                flag.clear();
                 let waker = waker_of(&flag);
                 let mut cx = Context::from_waker(&waker);
                 let (items, end) = match st {
@@ -378,11 +382,14 @@ pub fn run_behaviour(tr: &Tracer, run: i64, ops: &[Value]) {
     let presubs = geti(first, "k");
     tr.emit(&json!({"e": "Begin", "run": run, "layer": "vec", "cap": cap, "init": init, "presubs": presubs}));
     set_fresh(1);
-    let mut cx = Ctx { src: Source::new(cap, run % 2 == 0), ..Default::default() };
+    // driver policy (field v of the first record): bit 0 = poll a subscriber always with the same waker,
+    // bits 1, 2 = how the vector and its initial contents are created
+    let pol = geti(first, "v");
+    let mut cx = Ctx { src: Source::new(cap, pol & 2 != 0), reuse_wakers: pol & 1 != 0, ..Default::default() };
     if !init.is_empty() {
         // initial contents exist before anybody subscribes (alternating between append and From<Vector>)
         let v: Vector<Elem> = init.iter().map(|v| Elem::new(*v)).collect();
-        if run % 3 == 0 && cap == 16 {
+        if pol & 4 != 0 && cap == 16 {
             cx.src.vec = Some(Box::new(ObservableVector::from(v)));
         } else {
             cx.src.vec.as_mut().unwrap().append(v);
